@@ -931,6 +931,15 @@ def k_c18_sl(ops, lines):
             if n is not None and leave(n):
                 return True
             continue
+        if t[0] == "iter_free" and t[1] in parked and (res is None or res == ["ok"]):
+            # (also when the op is the one the sanitizer stopped in: the zombie's destruction frees
+            # the array a second time / under the header)
+            n = parked.pop(t[1])
+            if n is not None and leave(n):
+                return True
+            if res is None:
+                break
+            continue
         if res is None:
             break
         if t[0] == "put":
@@ -962,10 +971,6 @@ def k_c18_sl(ops, lines):
                 level_neg = True
         elif t[0] == "iter_new" and res == ["ok"]:
             parked[t[1]] = HDR
-        elif t[0] == "iter_free" and res == ["ok"] and t[1] in parked:
-            n = parked.pop(t[1])
-            if n is not None and leave(n):
-                return True
         elif t[0] == "destroy" and res == ["ok"]:
             lst, node, zarr, freed, level_neg = [], {}, {}, set(), False
             arr = {HDR: nxt[0]}
